@@ -108,6 +108,8 @@ if f2: S["maxProperties"] = n
     "empties": ("f: bool", [], 'S = {"default": [], "enum": [[], {}, "", 0, False, None], "const": {}, "required": [], "items": [], "properties": {}, "patternProperties": {}, "dependencies": {}, "additionalItems": f}', "quick"),
     "falsy_defaults_everywhere": ("f: bool", [], 'S = {"type": "object", "title": "FD", "default": {}, "properties": {"a": {"type": "array", "default": []}, "b": {"type": "string", "default": ""}, "c": {"type": ["boolean", "null"], "default": f}, "d": {"anyOf": [{"type": "integer"}, {"type": "null"}], "default": (None if f else 0)}, "e": {"type": "object", "title": "FE", "default": {}}}}', "quick"),
     "cats_and_dogs": ("m: int", [], 'S = {"type": "object", "title": "House", "properties": {"cats": {"type": "array", "items": {"type": "object", "title": "Cat", "properties": {"n": {"minimum": m}}}}, "dogs": {"type": "array", "items": {"type": "object", "title": "Dog", "properties": {"n": {"minimum": m}}}}, "l": {"type": "object", "title": "L", "properties": {"c": {"type": "object", "title": "LC"}}}, "r": {"type": "object", "title": "R", "properties": {"c": {"type": "object", "title": "RC"}}}}}', "quick"),
+    "class_without_own_properties": ("m: int", [], 'S = {"type": "object", "title": "Settings", "additionalProperties": {"properties": {"a": {"type": "string"}}}, "dependencies": {"k": {"properties": {"b": {"minimum": m}}, "required": ["b"]}}}', "quick"),
+    "class_without_own_properties_patterns": ("m: int", [], 'S = {"type": "array", "items": {"type": "object", "title": "Row", "patternProperties": {"^x": {"properties": {"a": {"maximum": m}}}}, "propertyNames": {"properties": {"zz": True}}}}', "quick"),
     "floats": ("m: int", [], 'S = {"type": "number", "minimum": 0.5, "maximum": m, "multipleOf": 0.25, "const": 1.0, "enum": [1, 1.0, True]}', "thorough"),
 }
 
@@ -120,7 +122,7 @@ def harnesses(ctx) -> List[H]:
 return roundtrip_ok(S)
 """
         hs.append(mk(f"c06_json_{name}", args, pre, body, tier=tier, timeout=90, group="json", covers=" ".join(setup.split())))
-        if "title" in setup:
+        if '"title"' in setup:
             body = f"""
 {setup.strip()}
 return python_roundtrip_ok(S)
